@@ -50,12 +50,16 @@ def gen_c14(r):
 def gen_c15(r):
     dt = r.choice(["i8", "i8", "i2", "u2", "u1", "b1", "f8", "f4"])
     n = r.choice([1, 2, 3, 5, 8, 12])
-    if r.random() < 0.06:
+    if r.random() < 0.08:
         n = r.choice([70, 100, 127, 128, 130, 140])        # beyond the range of 8-bit positions
     a = rnd_runs(r, dt, n)
+    if n > 20 and r.random() < 0.6 and dt not in ("b1",):
+        # many runs (every cell its own run where the dtype allows): strides then skip dozens of runs at a time
+        a = [rnd_val(r, dt) if i % 2 else a[i] for i in range(n)]
+        a = [v if i == 0 or v != a[i - 1] else ([v[0] + v[1], v[1]] if isinstance(v, list) and v[1] else (v + 1 if not isinstance(v, list) and v < 100 else a[i - 1])) for i, v in enumerate(a)]
     k = r.choice(["int", "list", "mask", "rlmask", "slice", "slice", "slice", "slice", "windows", "all"])
     if n > 20:
-        k = r.choice(["int", "list", "list", "slice"])
+        k = r.choice(["int", "list", "slice", "slice", "slice"])
     if k == "list" and r.random() < 0.25:
         w = r.randint(1, 3)
         idx = ["list2d", [[r.randint(-n, n - 1) for _ in range(w)] for _ in range(r.randint(1, 3))]]
